@@ -143,6 +143,8 @@ def directed_values():
         set(range(1001)), set(range(1002)), set(range(1500)), {"w%d" % i for i in range(1003)},
         list(range(1001)), list(range(2003)), dict.fromkeys(range(1001)), {i: str(i) for i in range(2002)},
         [set(range(1002)), {"k": set(range(1003))}],
+        # scale: tens of thousands of opcodes (several FRAMEs at protocol >= 4, thousands of memo entries)
+        list(range(20000)), {i: [i] for i in range(6000)}, [("s%d" % i, float(i)) for i in range(5000)],
     ]
     return out
 
